@@ -59,7 +59,7 @@ def leaf_mix(p_src=3, p_lit=0):
     return st.one_of(*alts)
 
 
-def make_env():
+def make_env(debug=False):
     err = errors()
     sing = [err.from_message(c) for c in CODES8]
 
@@ -70,7 +70,7 @@ def make_env():
     for i, c in enumerate(CODES8):
         vars_['v_e%s' % 'abcdefgh'[i]] = sing[i]
         cells['E%d' % (i + 1)] = sing[i]
-    return Env(vars=vars_, cells=cells, ranges={'A1:B2': [7, 8]}, funcs={'ERET': lambda k: sing[k], 'ERAISE': eraise})
+    return Env(vars=vars_, cells=cells, ranges={'A1:B2': [7, 8]}, funcs={'ERET': lambda k: sing[k], 'ERAISE': eraise}, debug=debug)
 
 
 REF_ENV = {'vars': {'v_a': 4, 'v_b': 9, 'v_arr': [3, 4, 5]}, 'cells': {'B2': 6}, 'ranges': {'A1:B2': [7, 8]}, 'funcs': {}}
@@ -92,7 +92,7 @@ def prop_case(draw):
         arr = draw(array_leaf)
         pair = ['bin', draw(st.sampled_from(gf.ARITH)), arr, src] if draw(st.booleans()) else ['bin', draw(st.sampled_from(gf.ARITH)), src, arr]
         t = ['bin', draw(st.sampled_from(gf.ARITH)), ['paren', pair], t] if draw(st.booleans()) else pair
-    return {'tree': t, 'style': draw(st.sampled_from(['min', 'full']))}
+    return {'tree': t, 'style': draw(st.sampled_from(['min', 'full'])), 'debug': draw(st.sampled_from([False, False, True]))}
 
 
 def reference(t):
@@ -125,8 +125,8 @@ def check_propagation(case):
     except Unspecified:
         raise Skip('reference-unspecified')
     text = gf.render(t, case['style'])
-    r = make_env().parse(text)
-    expect_top(text, r, want, 'formula')
+    r = make_env(case.get('debug', False)).parse(text)
+    expect_top(text + (' (debug on)' if case.get('debug') else ''), r, want, 'formula')
 
 
 @st.composite
@@ -138,7 +138,7 @@ def trap_case(draw):
     if draw(st.integers(0, 7)) == 0:
         x = ['bin', '+', x, draw(literals)]
     y = draw(st.one_of(st.sampled_from(['1', '42', '0']).map(lambda s: ['num', s]), st.just(['str', 'alt', '"']), sources.map(lambda s: s[:3])))
-    return {'x': x, 'y': y, 'trap': draw(st.sampled_from(['IFERROR', 'IFNA', 'ISERROR', 'ISERR', 'ISNA', 'ERROR.TYPE', 'OR', 'IFERROR', 'ISERROR']))}
+    return {'x': x, 'y': y, 'trap': draw(st.sampled_from(['IFERROR', 'IFNA', 'ISERROR', 'ISERR', 'ISNA', 'ERROR.TYPE', 'OR', 'IFERROR', 'ISERROR'])), 'debug': draw(st.sampled_from([False, False, True]))}
 
 
 def check_trapping(case):
@@ -155,7 +155,9 @@ def check_trapping(case):
         text = 'OR(ISERR(%s),ISNA(%s))=ISERROR(%s)' % (X, X, X)
     else:
         text = '%s(%s)' % (trap, X)
-    r = make_env().parse(text)
+    r = make_env(case.get('debug', False)).parse(text)
+    if case.get('debug'):
+        text += ' (debug on)'
     if isinstance(xv, tuple):
         expect_top(text, r, xv, 'error literal inside')      # a literal aborts the whole formula
         return
@@ -221,7 +223,7 @@ def enum_matrix(tier, shard, nshards):
 
 
 def check_matrix(node):
-    env = make_env()
+    env = make_env(debug=(sum(map(ord, repr(node))) % 3 == 0))       # a third of the matrix with the parser's debug output on
     if node[0] == 'errlit':
         code = node[1]
         for text in (code, '1+' + code, code + '=1', 'IFERROR(%s,1)' % code, 'ISERROR(%s)' % code, '-' + code, '"a"&' + code, 'SUM(1,%s)' % code):
